@@ -917,9 +917,10 @@ func (p *Posix) fileToObjVersions(bucket string) backend.GetVersionsFunc {
 		if err == nil {
 			versionId = string(versionIdBytes)
 		}
-		if versionId == versionIdMarker {
-			*pastVersionIdMarker = true
-		}
+		// the version id marker names the last entry of the previous page:
+		// the listing resumes after it (the current version was repeated
+		// on the next page, with max-keys=1 the listing never advanced)
+		isMarkerEntry := !*pastVersionIdMarker && versionId == versionIdMarker
 		if *pastVersionIdMarker {
 			fi, err := d.Info()
 			if errors.Is(err, fs.ErrNotExist) {
@@ -972,6 +973,9 @@ func (p *Posix) fileToObjVersions(bucket string) backend.GetVersionsFunc {
 					NextVersionIdMarker: versionId,
 				}, nil
 			}
+		}
+		if isMarkerEntry {
+			*pastVersionIdMarker = true
 		}
 
 		if !p.versioningEnabled() {
@@ -1059,15 +1063,29 @@ func (p *Posix) fileToObjVersions(bucket string) backend.GetVersionsFunc {
 
 		isNullVersionIdObjFound := nullVersionIdObj != nil || nullObjDelMarker != nil
 
-		if len(dirEnts) == 1 && (isNullVersionIdObjFound) {
-			if nullObjDelMarker != nil {
-				delMarkers = append(delMarkers, *nullObjDelMarker)
+		// emitNullVersion appends the archived null version, but only once
+		// the listing is past the version id marker (it was repeated on
+		// every continuation page); a marker that names the null version is
+		// consumed here (it was never found, so the rest of the key and all
+		// following keys were dropped). Reports whether an entry was added.
+		emitNullVersion := func() bool {
+			if !*pastVersionIdMarker {
+				if versionIdMarker == nullVersionId {
+					*pastVersionIdMarker = true
+				}
+				return false
 			}
 			if nullVersionIdObj != nil {
 				objects = append(objects, *nullVersionIdObj)
 			}
+			if nullObjDelMarker != nil {
+				delMarkers = append(delMarkers, *nullObjDelMarker)
+			}
+			return true
+		}
 
-			if availableObjCount == 1 {
+		if len(dirEnts) == 1 && (isNullVersionIdObjFound) {
+			if emitNullVersion() && availableObjCount == 1 {
 				return &backend.ObjVersionFuncResult{
 					ObjectVersions:      objects,
 					DelMarkers:          delMarkers,
@@ -1104,22 +1122,17 @@ func (p *Posix) fileToObjVersions(bucket string) backend.GetVersionsFunc {
 			// by checking its creation date, then continue the adding
 			if isNullVersionIdObjFound && !isNullVersionIdObjAdded {
 				if nf.ModTime().After(f.ModTime()) {
-					if nullVersionIdObj != nil {
-						objects = append(objects, *nullVersionIdObj)
-					}
-					if nullObjDelMarker != nil {
-						delMarkers = append(delMarkers, *nullObjDelMarker)
-					}
-
 					isNullVersionIdObjAdded = true
 
-					if availableObjCount--; availableObjCount == 0 {
-						return &backend.ObjVersionFuncResult{
-							ObjectVersions:      objects,
-							DelMarkers:          delMarkers,
-							Truncated:           true,
-							NextVersionIdMarker: nullVersionId,
-						}, nil
+					if emitNullVersion() {
+						if availableObjCount--; availableObjCount == 0 {
+							return &backend.ObjVersionFuncResult{
+								ObjectVersions:      objects,
+								DelMarkers:          delMarkers,
+								Truncated:           true,
+								NextVersionIdMarker: nullVersionId,
+							}, nil
+						}
 					}
 				}
 			}
@@ -1189,14 +1202,7 @@ func (p *Posix) fileToObjVersions(bucket string) backend.GetVersionsFunc {
 
 		// If null versionId object is found but not yet pushed,
 		// push it after the listing, as it's the oldest object version
-		if isNullVersionIdObjFound && !isNullVersionIdObjAdded {
-			if nullVersionIdObj != nil {
-				objects = append(objects, *nullVersionIdObj)
-			}
-			if nullObjDelMarker != nil {
-				delMarkers = append(delMarkers, *nullObjDelMarker)
-			}
-
+		if isNullVersionIdObjFound && !isNullVersionIdObjAdded && emitNullVersion() {
 			if availableObjCount--; availableObjCount == 0 {
 				return &backend.ObjVersionFuncResult{
 					ObjectVersions:      objects,
